@@ -265,6 +265,28 @@ func buildWorld(c *Case) (*world, error) {
 			w.mh[i].Intercept = w.intercept
 		}
 	}
+	for _, fs := range c.Faults {
+		if !valid(fs.Host) || fs.At < 0 {
+			continue
+		}
+		f := rm.NewFault(fs.Kind)
+		switch fs.Kind {
+		case "status":
+			f.Status = fs.Status
+			f.RetryAfter = fs.RetryAfter
+			if f.Status < 400 || f.Status > 599 {
+				f.Status = 502
+			}
+		case "reset-before", "reset-after":
+		case "truncate":
+			f.At = fs.Off
+		default:
+			continue
+		}
+		f.Host = c.Hosts[fs.Host].Name
+		f.AtHostSeq = fs.At
+		w.m.AddFault(f)
+	}
 	return w, nil
 }
 
@@ -393,13 +415,13 @@ func (w *world) challenge(owner int, ch ChallengeSpec, e *rm.Entry, insufficient
 	case "malformed":
 		realm, _ := w.realm(owner, ch)
 		v := []string{
-			`Bearer realm="` + realm,                        // unterminated quote
-			`Bearer realm=,service=`,                        // empty values
-			`Basic`,                                         // no realm
-			`=broken, realm="` + realm + `"`,                // no scheme
-			`Bearer service="svc"`,                          // no realm
-			`Bearer realm="` + realm + `" service="svc"`,    // missing comma
-			`Bearer realm="` + realm + `",service="a\`,      // dangling escape
+			`Bearer realm="` + realm,                         // unterminated quote
+			`Bearer realm=,service=`,                         // empty values
+			`Basic`,                                          // no realm
+			`=broken, realm="` + realm + `"`,                 // no scheme
+			`Bearer service="svc"`,                           // no realm
+			`Bearer realm="` + realm + `" service="svc"`,     // missing comma
+			`Bearer realm="` + realm + `",service="a\`,       // dangling escape
 			`Basic realm="x", Bearer realm="` + realm + `",`, // trailing comma
 		}
 		r.Header.Add("WWW-Authenticate", v[ch.Variant%len(v)])
